@@ -292,6 +292,26 @@ def probe_str_read(s, tr, k, restore=None):
     return n, bad, moved
 
 
+def probe_after_renaming_append(s, tr, k):
+    """operation history: look the key up (membership, item, attribute, get), then append an item whose name duplicates the
+    matched item's name (append re-numbers the session names of that group), then run the read probes again on the new
+    state - a lookup must not remember anything that the later append invalidates"""
+    items = raw_items(s)
+    sess = [it.mnemonic for it in items]
+    exp = first_match(tr, sess, k)
+    if exp is None:
+        return 0, []
+    try:
+        k in s; s[k]; s.get(k)
+        if attr_ok(k):
+            getattr(s, k)
+    except Exception:
+        return 0, []            # the plain read probe reports that
+    s.append(HeaderItem(items[exp].original_mnemonic, "", "dup", "appended after the lookup"))
+    n, bad, _moved = probe_str_read(s, tr, k)
+    return n + 5, bad
+
+
 def probe_get_add(s, tr, k):
     items = raw_items(s)
     sess = [it.mnemonic for it in items]
@@ -502,6 +522,9 @@ def run_key(st, k):
         c, bad = probe_get_add(fresh(), tr, k)
         n += c
         out += [(cl, klass_str(tr, sess, "get-add", k), "get-add", d) for cl, d in bad]
+        c, bad = probe_after_renaming_append(fresh(), tr, k)
+        n += c
+        out += [(cl, klass_str(tr, sess, "read-after-renaming-append", k), "read-after-renaming-append", d) for cl, d in bad]
         c, bad = probe_del_key(fresh(), tr, k)
         n += c
         out += [(cl, klass_str(tr, sess, "del", k), "del", d) for cl, d in bad]
